@@ -478,10 +478,14 @@ Inductive cstmt :=
 | SMsg (body : cblk)
     (* {msg desc=".."}text{$x}{call ..}..{/msg} without plural, rendered without a bundle: raw text and placeholders
        (print, call) in the scope of the message; [msg_ok body] restricts the block to these *)
+| SMsgPl (pname : bstr) (v : cexpr) (q : cplur)
+    (* {msg desc=".."}{plural v}{case z1}b1 .. {case zk}bk{default}d{/plural}{/msg}, rendered without a bundle; the bodies
+       are message bodies ([qwf] demands msg_ok of each); pname is the plural's variable name (not used by either backend) *)
 with cblk := BNil | BCons (s : cstmt) (r : cblk)
 with celse := ENone | EElse (b : cblk) | EElif (c : cexpr) (th : cblk) (rest : celse)
 with ccases := KNone | KDefault (b : cblk) | KCase (v : cexpr) (vs : list cexpr) (b : cblk) (rest : ccases)
-with cparams := PNil | PVal (k : bstr) (e : cexpr) (r : cparams) | PCont (k : bstr) (body : cblk) (r : cparams).
+with cparams := PNil | PVal (k : bstr) (e : cexpr) (r : cparams) | PCont (k : bstr) (body : cblk) (r : cparams)
+with cplur := QDflt (b : cblk) | QCase (z : Z) (b : cblk) (rest : cplur).
 
 Definition cdata_all (d : cdata) : bool := match d with DAll => true | _ => false end.
 Definition cdata_node (d : cdata) : option node := match d with DExpr e => Some (cnode e) | _ => None end.
@@ -500,6 +504,7 @@ Fixpoint snode (s : cstmt) : node :=
   | SCss e sfx => NCss 0 (match e with Some x => Some (cnode x) | None => None end) sfx
   | SCall name d ps => NCall 0 name (cdata_all d) (cdata_node d) (pnodes ps)
   | SMsg body => NMsg 0 0 [] [] (mnodes body)
+  | SMsgPl pname v q => NMsg 0 0 [] [] [NMsgPlural 0 pname (cnode v) (qcnodes q) (qdnodes q)]
   end
 with bnodes (b : cblk) : list node :=
   match b with BNil => [] | BCons s r => snode s :: bnodes r end
@@ -526,7 +531,12 @@ with pnodes (ps : cparams) : list node :=
   | PNil => []
   | PVal k e r => NParamValue 0 k (cnode e) :: pnodes r
   | PCont k body r => NParamContent 0 k (NList 0 (bnodes body)) :: pnodes r
-  end.
+  end
+(* the case nodes of a plural, and the children of its default *)
+with qcnodes (q : cplur) : list node :=
+  match q with QDflt _ => [] | QCase z b r => NMsgPluralCase 0 z (mnodes b) :: qcnodes r end
+with qdnodes (q : cplur) : list node :=
+  match q with QDflt b => mnodes b | QCase _ _ r => qdnodes r end.
 
 (* fuel that suffices for both walkers *)
 Definition cdepths (l : list cexpr) : nat := fold_right (fun x acc => Nat.max (cdepth x) acc) 0%nat l.
@@ -544,6 +554,7 @@ Fixpoint sdepth (s : cstmt) : nat :=
   | SCss e _ => S (S (match e with Some x => cdepth x | None => 0%nat end))
   | SCall _ d ps => S (S (Nat.max (ddepth d) (pdepth ps)))
   | SMsg body => S (bdepth body)
+  | SMsgPl _ v q => S (S (S (S (Nat.max (cdepth v) (qdepth q)))))
   end
 with bdepth (b : cblk) : nat :=
   match b with BNil => 0%nat | BCons s r => Nat.max (S (sdepth s)) (bdepth r) end
@@ -564,7 +575,9 @@ with pdepth (ps : cparams) : nat :=
   | PNil => 0%nat
   | PVal _ e r => Nat.max (cdepth e) (pdepth r)
   | PCont _ body r => Nat.max (bdepth body) (pdepth r)
-  end.
+  end
+with qdepth (q : cplur) : nat :=
+  match q with QDflt b => bdepth b | QCase _ b r => Nat.max (bdepth b) (qdepth r) end.
 
 (* the data argument of a generated call: {} , opt_data, or an expression *)
 Inductive jdata := JDEmpty | JDOpt | JDExpr (e : jexpr).
@@ -591,6 +604,8 @@ Inductive jstmt :=
     (* [var param_n = ''; statements that append to param_n]*  (one group per content parameter, in order), then
        buf += name(d, opt_sb, opt_ijData);   or   buf += name(soy.$$augmentMap(d, {k: e, k2: param_n, ..}), opt_sb, opt_ijData); *)
 | JSSeq (b : jblk)                                              (* the statements of b, one after the other (no braces) *)
+| JSPlural (v : jexpr) (cs : jcases)
+    (* the switch soyjs writes for a plural: as JSSwitch, printed without "break;" after the default clause *)
 with jblk := JBNil | JBCons (s : jstmt) (r : jblk)
 with jelse := JLNone | JLElse (b : jblk) | JLElif (c : jexpr) (th : jblk) (rest : jelse)
 with jcases := JKNone | JKDefault (b : jblk) | JKCase (v : jexpr) (vs : list jexpr) (b : jblk) (rest : jcases)
@@ -661,6 +676,7 @@ Fixpoint sgen (mode : N) (buf : bstr) (sc : list (list (bstr * bstr))) (n : N) (
   | SCss e sfx => (JSCss buf (match e with Some x => Some (cgen sc x) | None => None end) sfx, (sc, n))
   | SCall name d ps => let '(jps, n1) := pgen mode sc n ps in (JSCall buf name (dgen sc d) jps, (sc, n1))
   | SMsg body => let '(jb, n1) := bgen mode buf sc n body in (JSSeq jb, (sc, n1))     (* no new frame; the statements of a message bind nothing *)
+  | SMsgPl _ v q => let '(jk, n1) := qgen mode buf sc n q in (JSPlural (cgen sc v) jk, (sc, n1))
   end
 with bgen (mode : N) (buf : bstr) (sc : list (list (bstr * bstr))) (n : N) (b : cblk) : jblk * N :=
   match b with
@@ -698,6 +714,15 @@ with pgen (mode : N) (sc : list (list (bstr * bstr))) (n : N) (ps : cparams) : j
       let '(jb, n1) := bgen mode g ([] :: sc) (n + 1) body in
       let '(jr, n2) := pgen mode sc n1 r in
       (JPCont k g jb jr, n2)
+  end
+(* the bodies of a plural, one after the other, each as the statements of a message (no new frame) *)
+with qgen (mode : N) (buf : bstr) (sc : list (list (bstr * bstr))) (n : N) (q : cplur) : jcases * N :=
+  match q with
+  | QDflt b => let '(jb, n1) := bgen mode buf sc n b in (JKDefault jb, n1)
+  | QCase z b r =>
+      let '(jb, n1) := bgen mode buf sc n b in
+      let '(jr, n2) := qgen mode buf sc n1 r in
+      (JKCase (JENum z) [] jb jr, n2)
   end.
 
 (* ---- the JavaScript meaning ---- *)
@@ -850,6 +875,7 @@ Fixpoint js_exec (env : jenv) (s : jstmt) : outcome jenv :=
       r <- jcall name dv (js_ij_arg env1) ;;
       js_append_text env1 buf r
   | JSSeq b => jb_exec env b
+  | JSPlural v cs => sv <- js_eval env v ;; jk_exec env sv cs
   end
 with jb_exec (env : jenv) (b : jblk) : outcome jenv :=
   match b with JBNil => Ok env | JBCons s r => env' <- js_exec env s ;; jb_exec env' r end
@@ -1035,6 +1061,12 @@ Section Sout.
         | None => None
         end
     | SMsg body => if msg_ok body then match bout env body with Some t => Some (t, env) | None => None end else None
+    | SMsgPl _ v q =>
+        (* walkPlural: the value must be an integer; the first case with that number, else the default *)
+        match ceval ij env v with
+        | Some (VInt i) => match qout env i q with Some t => Some (t, env) | None => None end
+        | _ => None
+        end
     end
   with bout (env : bstr -> option value) (b : cblk) : option bstr :=
     match b with
@@ -1075,6 +1107,11 @@ Section Sout.
     | PCont k body r =>
         if is_ident k then match bout env body with Some t => pout env r (env_set acc k (VStr t)) | None => None end
         else None
+    end
+  with qout (env : bstr -> option value) (i : Z) (q : cplur) : option bstr :=
+    match q with
+    | QDflt b => if msg_ok b then bout env b else None
+    | QCase z b r => if (i =? z)%Z then (if msg_ok b then bout env b else None) else qout env i r
     end.
 End Sout.
 
@@ -1140,6 +1177,9 @@ Fixpoint sprint (ind : nat) (s : jstmt) : list chunk :=
       pprint ind ps
       ++ sp_ind ind ++ ([CName buf; CText t_pluseq; CName name; CText t_lpar] ++ jcall_arg d (jp_args ps) ++ [CText t_call_tail]) ++ [CText t_nl]
   | JSSeq b => bprint ind b
+  | JSPlural v cs =>
+      sp_ind ind ++ [CText t_switch_open] ++ jprint v ++ [CText t_for_close; CText t_nl] ++ kprint_nb (S ind) cs
+      ++ sp_ind ind ++ [CText t_rbrace; CText t_nl]
   end
 with bprint (ind : nat) (b : jblk) : list chunk :=
   match b with JBNil => [] | JBCons s r => sprint ind s ++ bprint ind r end
@@ -1165,6 +1205,14 @@ with pprint (ind : nat) (ps : jparams) : list chunk :=
   | JPNil => []
   | JPVal _ _ r => pprint ind r
   | JPCont _ g body r => (sp_ind ind ++ [CText t_var; CName g; CText t_eq_empty] ++ [CText t_nl]) ++ bprint ind body ++ pprint ind r
+  end
+(* the clauses of a plural's switch: as kprint, without "break;" after the default clause *)
+with kprint_nb (ind : nat) (k : jcases) : list chunk :=
+  match k with
+  | JKNone => []
+  | JKDefault b => sp_ind ind ++ [CText t_default; CText t_nl] ++ bprint (S ind) b
+  | JKCase v vs b rest =>
+      jk_values ind (v :: vs) ++ bprint (S ind) b ++ sp_ind (S ind) ++ [CText t_break; CText t_nl] ++ kprint_nb ind rest
   end.
 
 (* ---- static condition for the generator: loop functions talk about enclosing loops, binders are identifiers ---- *)
@@ -1182,6 +1230,7 @@ Fixpoint swf (lv : list bstr) (s : cstmt) : bool :=
   | SCss e _ => match e with Some x => cwf lv x | None => true end
   | SCall _ d ps => (match d with DExpr e => cwf lv e | _ => true end) && pwf lv ps
   | SMsg body => msg_ok body && bwf lv body
+  | SMsgPl _ v q => cwf lv v && qwf lv q
   end
 with bwf (lv : list bstr) (b : cblk) : bool :=
   match b with BNil => true | BCons s r => swf lv s && bwf lv r end
@@ -1202,4 +1251,9 @@ with pwf (lv : list bstr) (ps : cparams) : bool :=
   | PNil => true
   | PVal _ e r => cwf lv e && pwf lv r
   | PCont _ body r => bwf lv body && pwf lv r
+  end
+with qwf (lv : list bstr) (q : cplur) : bool :=
+  match q with
+  | QDflt b => msg_ok b && bwf lv b
+  | QCase _ b r => msg_ok b && bwf lv b && qwf lv r
   end.
